@@ -175,6 +175,8 @@ func probeFor(t schema.Type, depth int, text bool) any {
 		if r, ok := t.(*schema.RefSchema); ok && r.ObjectReady() {
 			return probeFor(r.GetObject(), depth-1, text)
 		}
+		// a reference the loader left unlinked: the property is SET all the same (an accepted schema is used where it sits)
+		return map[any]any{}
 	case schema.TypeIDObject, schema.TypeIDScope:
 		if o, ok := t.(schema.Object); ok {
 			out := map[any]any{}
@@ -651,7 +653,7 @@ func singleMutations(r *Rng, v *sx.Node, limit int) (out []*sx.Node, sensitive [
 						rp = append(rp, replaceAt(v, nd.path, vS(c)))
 					}
 				}
-				if nd.key == "type_id" || nd.key == "default" || nd.key == "pattern" || nd.key == "root" || nd.key == "id" {
+				if nd.key == "type_id" || nd.key == "default" || nd.key == "pattern" || nd.key == "root" || nd.key == "id" || nd.key == "namespace" {
 					sensitive = append(sensitive, rp...) // the link-sensitive places are always enumerated completely
 				} else {
 					out = append(out, sample(rp)...)
@@ -876,6 +878,7 @@ func c10Fixed() []*sx.Node {
 	good := scope("R", vS("R"), obj("R"))
 	stepAt := func(where string, sc *sx.Node) *sx.Node {
 		out, ha, em := good, good, good
+		hKey, eKey := "h", "e"
 		switch where {
 		case "output":
 			out = sc
@@ -883,16 +886,20 @@ func c10Fixed() []*sx.Node {
 			ha = sc
 		case "emitter":
 			em = sc
+		case "handler-shared-key": // the step emits a signal under the key under which it handles one
+			ha, hKey, eKey = sc, "x", "x"
+		case "emitter-shared-key":
+			em, hKey, eKey = sc, "x", "x"
 		}
 		sig := func(id string, d *sx.Node) *sx.Node {
 			return vM(tAnyMap, vS(id), vM(tStrMap, vS("id"), vS(id), vS("data_schema"), d))
 		}
 		return vM(tStrMap, vS("steps"), vM(tAnyMap, vS("s"), vM(tStrMap, vS("id"), vS("s"), vS("input"), good,
 			vS("outputs"), vM(tAnyMap, vS("ok"), vM(tStrMap, vS("schema"), out)),
-			vS("signal_handlers"), sig("h", ha), vS("signal_emitters"), sig("e", em))))
+			vS("signal_handlers"), sig(hKey, ha), vS("signal_emitters"), sig(eKey, em))))
 	}
 	var placed []*sx.Node
-	for _, where := range []string{"output", "handler", "emitter"} {
+	for _, where := range []string{"output", "handler", "emitter", "handler-shared-key", "emitter-shared-key"} {
 		for _, sc := range []*sx.Node{linked, dangling, noRoot, badDefault, foreign} {
 			placed = append(placed, mk("schema", stepAt(where, sc)))
 		}
